@@ -70,7 +70,9 @@ func scalarBytes(k protoreflect.Kind, v protoreflect.Value) []byte {
 
 func scalarValue(k protoreflect.Kind, b []byte) protoreflect.Value {
 	u32 := func() uint32 { return binary.LittleEndian.Uint32(append(append([]byte{}, b...), 0, 0, 0, 0)) }
-	u64 := func() uint64 { return binary.LittleEndian.Uint64(append(append([]byte{}, b...), 0, 0, 0, 0, 0, 0, 0, 0)) }
+	u64 := func() uint64 {
+		return binary.LittleEndian.Uint64(append(append([]byte{}, b...), 0, 0, 0, 0, 0, 0, 0, 0))
+	}
 	switch k {
 	case protoreflect.BoolKind:
 		return protoreflect.ValueOfBool(len(b) > 0 && b[0] != 0)
